@@ -87,3 +87,7 @@ package resource
 //@   inline
 //@ func (Finalizers).Empty
 //@   inline
+
+//@ func ParseVersion
+//@   props C01
+//@   ensures [one] ver == "1" ==> result1 == nil && result0.uint64 != nil && *result0.uint64 == 1 && fresh(result0.uint64)
